@@ -187,7 +187,8 @@ def part_exits(ctx, pairs, cfgs, per_type_cfgs):
     for ti, (t, vals, src, info) in enumerate(metas):
         cases = []
         for v in vals:
-            parts = [bytes.fromhex(x) for x in outs[k].split("|")]
+            parts = X.unpack(outs[k])
+            assert len(parts) == 8, (len(parts), outs[k][:200])
             k += 1
             cases.append({"enc": parts})
             wrapped.append((t, v, parts[0]))
@@ -247,7 +248,7 @@ def part_reasons(ctx, cfgs):
     outs = A.coq_strings(exprs, "c06reason", imports=A.IMPORTS + X.PACK_DEF, shard=40)
     by = {}
     for (nb, s), o in zip(meta, outs):
-        a, b = [bytes.fromhex(x) for x in o.split("|")]
+        a, b = X.unpack(o)
         by.setdefault(nb, []).append((a, b, s))
     jobs, jm = [], []
     for nb, cases in by.items():
@@ -283,7 +284,29 @@ def part_zero_pad_template(ctx):
     exp = "[with, len, [mload, buf], [with, dst, [add, [add, buf, 32], len], [calldatacopy, dst, calldatasize, [mod, [sub, 0, len], 32]]]]"
     norm = lambda s: re.sub(r"[\s,\[\]\(\)]+", " ", s).strip()  # noqa
     ctx.extra["zero_pad_template"] = got
-    return norm(got) == norm(exp), got
+    ok = norm(got) == norm(exp)
+    # venom: _pre_zero_pad must still be "mstore(dst + ((length + 31) & ~31), 0)" (modelled by zero_pad_spec_venom +
+    # venom_last_word_offset); compared at source level, fail closed
+    import ast
+    import inspect
+    import textwrap
+
+    from vyper.codegen_venom.abi import abi_encoder as VE
+    fn = ast.parse(textwrap.dedent(inspect.getsource(VE._pre_zero_pad))).body[0]
+    body = [st for st in fn.body if not (isinstance(st, ast.Expr) and isinstance(st.value, ast.Constant))]
+    want = ast.parse(textwrap.dedent("""
+        b = ctx.builder
+        inv_31 = ~31 & (2**256 - 1)
+        last_word_offset = b.and_(b.add(length, IRLiteral(31)), IRLiteral(inv_31))
+        last_word_ptr = b.add(dst, last_word_offset)
+        b.mstore(last_word_ptr, 0)
+    """)).body
+    vgot = "\n".join(ast.unparse(x) for x in body)
+    if [ast.dump(x) for x in body] != [ast.dump(x) for x in want]:
+        ok = False
+        got = got + " || venom _pre_zero_pad: " + vgot
+    ctx.extra["pre_zero_pad_source"] = vgot
+    return ok, got
 
 
 # ------------------------------------------------------------------ replay
@@ -304,6 +327,12 @@ def do_replay(ctx):
 def run(ctx):
     if ctx.replay:
         return do_replay(ctx)
+    try:  # coqc child processes inherit the stack limit (deep non-tail recursion on long byte lists)
+        import resource
+        soft, hard = resource.getrlimit(resource.RLIMIT_STACK)
+        resource.setrlimit(resource.RLIMIT_STACK, (hard, hard))
+    except Exception:  # noqa
+        pass
     ctx.pending = []
     ctx.spec_cmp = []
     ctx.size_bound_failing = False
@@ -349,7 +378,7 @@ def run(ctx):
                           {"type": A.eth_ty(t), "spec": got, "real": real})
             break
     if not zp_ok:
-        ctx.violation("correspondence-broken", "core.zero_pad no longer emits the template modelled in ZeroPad.v",
+        ctx.violation("correspondence-broken", "core.zero_pad / venom _pre_zero_pad no longer match the templates modelled in ZeroPad.v",
                       {"observed": zp})
     total = n_spec + n_exit + n_eth + n_reason
     ctx.corr["evaluations"] = total
